@@ -776,6 +776,10 @@ def gen_legacy(rng, n_events=None, order=None, frames=None, n_ext=None, pages=No
     ext_keys = [f"img{j}" for j in range(n_ext)]
     two_streams = rng.random() < 0.3
     docs = [_start(), _descriptor("desc-1", "primary", int_keys, ext_keys, rng)]
+    # a re-issued descriptor: the same stream continues under a new descriptor uid (what the RunEngine does when a device is
+    # reconfigured between readings); seq_nums and frame counters belong to the STREAM, not to the descriptor document
+    reissue_at = rng.randrange(1, n) if n >= 2 and rng.random() < 0.3 else None
+    desc_of = ["desc-1" if reissue_at is None or i < reissue_at else "desc-1r" for i in range(n)]
     if two_streams:
         docs.append(_descriptor("desc-b", "baseline", ["x"], [], rng))
     res_of = {}
@@ -818,7 +822,7 @@ def gen_legacy(rng, n_events=None, order=None, frames=None, n_ext=None, pages=No
                     filled[k] = False
                 datum_docs[(i, k)] = ("datum", {"datum_id": did, "resource": res_of[k], "datum_kwargs": kw})
             ts[k] = 2.0 + i
-        events.append(("event", {"uid": f"ev-{i}", "time": 2.0 + i, "seq_num": i + 1, "descriptor": "desc-1", "data": data, "timestamps": ts, "filled": filled}))
+        events.append(("event", {"uid": f"ev-{i}", "time": 2.0 + i, "seq_num": i + 1, "descriptor": desc_of[i], "data": data, "timestamps": ts, "filled": filled}))
     # ordering
     late = set()
     if order == "late":
@@ -827,6 +831,12 @@ def gen_legacy(rng, n_events=None, order=None, frames=None, n_ext=None, pages=No
         late = {key for key in datum_docs if rng.random() < 0.5}
     body = []
     for i in range(n):
+        if i == reissue_at:
+            again = copy.deepcopy(docs[1][1])
+            again.update(uid="desc-1r", time=1.9 + i)
+            for conf in again["configuration"].values():
+                conf["data"] = {c: 2 for c in conf["data"]}
+            body.append(("descriptor", again))
         for k in ext_keys:
             if (i, k) in datum_docs and (i, k) not in late:
                 body.append(datum_docs[(i, k)])
@@ -853,7 +863,7 @@ def gen_legacy(rng, n_events=None, order=None, frames=None, n_ext=None, pages=No
     if pages:
         body = _pack_pages(body)
     docs += body + tail + [_stop(n)]
-    case = {"kind": "flow", "style": "legacy", "docs": docs, "order": order, "frames": frames}
+    case = {"kind": "flow", "style": "legacy", "docs": docs, "order": order, "frames": frames, "reissued": reissue_at is not None}
     if patches if patches is not None else rng.random() < 0.25:
         case["patches"] = {h: "nested" for h in rng.sample(["resource", "datum", "descriptor", "event", "stream_resource"], 2)}
         if rng.random() < 0.5:
@@ -1095,6 +1105,8 @@ def run(ctx, model=True):
         res.count(f"flow:{case.get('style')}")
         res.count(f"order:{case.get('order', '-')}" if len(str(case.get("order"))) < 12 else "order:exhaustive")
         res.count(f"frames:{case.get('frames', '-')}")
+        if case.get("reissued"):
+            res.count("reissued-descriptor" + (":with-frames" if case.get("frames") not in (None, "none", "point_number") else ""))
         if case.get("malformed"):
             res.count("malformed:" + case["malformed"])
         if obs["err"]:
